@@ -61,6 +61,11 @@ def gen_noise(tape: Tape, backend: str, n_atoms: int) -> tuple[dict, list[str]]:
     for kd in kinds:
         if kd == "spam_meas":
             nd.update(p_false_pos=round(tape.float(0.01, 0.3, "pfp"), 2), p_false_neg=round(tape.float(0.01, 0.3, "pfn"), 2))
+            side = tape.choice(["both", "both", "fp_only", "fn_only"], "readout_sides")  # one-sided readout errors too
+            if side == "fp_only":
+                nd["p_false_neg"] = 0.0
+            elif side == "fn_only":
+                nd["p_false_pos"] = 0.0
         elif kd == "spam_prep":
             nd.update(state_prep_error=round(tape.float(0.05, 0.35, "prep"), 2))
         elif kd == "amplitude":
